@@ -1,4 +1,156 @@
-import Props.Lemmas
+/-
+  C09 — requested alignments are honoured in the linked image.
+-/
+import Props.Writer
+import Props.C04
 namespace Slinky.C09
-theorem placeholder : True := trivial
+open Slinky W C04
+
+/-! ### arithmetic of `ALIGN(x, a)` -/
+
+theorem alignUp_ge (x a : Nat) : x ≤ alignUp x a := by
+  unfold alignUp
+  split
+  · exact Nat.le_refl x
+  · rename_i h
+    have ha : 0 < a := by omega
+    have := Nat.div_add_mod (x + a - 1) a
+    have hm := Nat.mod_lt (x + a - 1) ha
+    rw [Nat.mul_comm] at this
+    omega
+
+/-- `ALIGN(x, a)` is a multiple of `a`. -/
+theorem alignUp_dvd (x a : Nat) (ha : 1 ≤ a) : a ∣ alignUp x a := by
+  unfold alignUp
+  split
+  · rename_i h
+    have : a = 1 := by omega
+    subst this
+    exact Nat.one_dvd x
+  · exact Nat.dvd_mul_left a _
+
+/-- aligning an already aligned value changes nothing. -/
+theorem alignUp_of_dvd (x a : Nat) (h : a ∣ x) : alignUp x a = x := by
+  unfold alignUp
+  split
+  · rfl
+  · rename_i ha
+    obtain ⟨k, rfl⟩ := h
+    have ha0 : 0 < a := by omega
+    have : (a * k + a - 1) / a = k := by
+      have h1 : a * k + a - 1 = a * k + (a - 1) := by omega
+      rw [h1, Nat.mul_add_div ha0]
+      have : (a - 1) / a = 0 := Nat.div_eq_of_lt (by omega)
+      omega
+    rw [this, Nat.mul_comm]
+
+/-- **both alignments hold when both are requested**: after `. = ALIGN(., a); . = ALIGN(., b)`
+with `a` dividing `b` or `b` dividing `a` (in particular for powers of two) the result is a
+multiple of both. -/
+theorem align_both (x a b : Nat) (ha : 1 ≤ a) (hb : 1 ≤ b) (hab : a ∣ b ∨ b ∣ a) :
+    a ∣ alignUp (alignUp x a) b ∧ b ∣ alignUp (alignUp x a) b := by
+  refine ⟨?_, alignUp_dvd _ _ hb⟩
+  rcases hab with h | h
+  · exact Nat.dvd_trans h (alignUp_dvd _ _ hb)
+  · have h1 : b ∣ alignUp x a := Nat.dvd_trans h (alignUp_dvd x a ha)
+    rw [alignUp_of_dvd _ _ h1]
+    exact alignUp_dvd x a ha
+
+/-- powers of two are totally ordered by divisibility. -/
+theorem pow2_dvd_or (i j : Nat) : 2 ^ i ∣ 2 ^ j ∨ 2 ^ j ∣ 2 ^ i := by
+  rcases Nat.le_total i j with h | h
+  · exact Or.inl (Nat.pow_dvd_pow 2 h)
+  · exact Or.inr (Nat.pow_dvd_pow 2 h)
+
+/-! ### where the script puts alignment statements -/
+
+/-- **start of a section group**: `section_start_align` then that section's entry of
+`sections_start_alignment` — both when both are given, neither when neither is — then (maybe)
+`_gp`, then the start symbol: the symbol is taken *after* every requested alignment. -/
+theorem group_start (cx : Ctx) (seg : Segment) (sec : Str) (h : cx.emitSecSyms = true) :
+    sectionSymStart cx seg sec =
+      (match seg.sectionStartAlign with | some a => [alignSymbol c!"." a] | none => [])
+      ++ (match lookup sec seg.sectionsStartAlignment with | some a => [alignSymbol c!"." a] | none => [])
+      ++ gpLine cx seg sec
+      ++ [linkerSym (cx.d.settings.style.secStart seg.name sec) .dot] := by
+  cases h1 : seg.sectionStartAlign <;> cases h2 : lookup sec seg.sectionsStartAlignment <;>
+    simp [sectionSymStart, h, h1, h2]
+
+/-- **end of a section group**: both end alignments (when given), then the end symbol and the size. -/
+theorem group_end (cx : Ctx) (seg : Segment) (sec : Str) (h : cx.emitSecSyms = true) :
+    sectionSymEnd cx seg sec =
+      (match seg.sectionEndAlign with | some a => [alignSymbol c!"." a] | none => [])
+      ++ (match lookup sec seg.sectionsEndAlignment with | some a => [alignSymbol c!"." a] | none => [])
+      ++ [linkerSym (cx.d.settings.style.secEnd seg.name sec) .dot,
+          linkerSym (cx.d.settings.style.secSize seg.name sec)
+            (.absSub (cx.d.settings.style.secEnd seg.name sec) (cx.d.settings.style.secStart seg.name sec))] := by
+  cases h1 : seg.sectionEndAlign <;> cases h2 : lookup sec seg.sectionsEndAlignment <;>
+    simp [sectionSymEnd, h, symEndSize, h1, h2]
+
+/-- is this line an alignment statement or does it request `SUBALIGN`? -/
+def isAlign : Line → Bool
+  | .assign _ (.alignE _ _) _ _ _ => true
+  | .outHdr _ _ _ _ (some _) => true
+  | _ => false
+
+/-- **an absent (or `null`) option adds no alignment**: a segment none of whose six alignment
+options is set produces no `ALIGN` and no `SUBALIGN` at all. -/
+theorem absent_adds_nothing (cx : Ctx) (seg : Segment) (secs : List Str) (noload : Bool) (ls : List Line)
+    (h : writeSegment cx seg secs noload = .ok ls)
+    (h1 : seg.subalign = none) (h2 : seg.sectionStartAlign = none) (h3 : seg.sectionEndAlign = none)
+    (h4 : seg.sectionsStartAlignment = []) (h5 : seg.sectionsEndAlignment = []) :
+    ∀ l ∈ ls, isAlign l = false := by
+  unfold writeSegment at h
+  split at h
+  · contradiction
+  · rename_i body hbody
+    injection h with h
+    subst h
+    intro l hl
+    simp only [List.mem_append, List.mem_cons, List.mem_nil_iff, or_false] at hl
+    rcases hl with (((hl | hl) | hl) | hl) | hl
+    · unfold segmentStart kindStart at hl
+      simp only [List.mem_append, List.mem_cons, List.mem_nil_iff, or_false] at hl
+      rcases hl with hl | hl | hl
+      · split at hl <;> simp at hl
+        rcases hl with rfl | rfl <;> rfl
+      · subst hl; cases noload <;> simp [isAlign, h1]
+      · subst hl; rfl
+    · split at hl <;> simp at hl
+      subst hl; rfl
+    · rcases sectionLoop_mem _ _ _ hbody l hl with hb | ⟨s, _, rs, hrs, hls⟩
+      · subst hb; rfl
+      · split at hrs
+        · contradiction
+        · rename_i b hb
+          injection hrs with hrs
+          subst hrs
+          simp only [List.mem_append] at hls
+          rcases hls with (hls | hls) | hls
+          · unfold sectionSymStart gpLine at hls
+            simp only [h2, h4, lookup] at hls
+            split at hls
+            · simp only [List.nil_append, List.mem_append, List.mem_cons, List.mem_nil_iff, or_false] at hls
+              rcases hls with hls | hls
+              · split at hls
+                · simp at hls
+                · split at hls <;> simp at hls
+                  subst hls; rfl
+              · subst hls; rfl
+            · simp at hls
+          · have := emitSection_body cx seg s secs b hb l hls
+            cases this <;> rfl
+          · unfold sectionSymEnd at hls
+            simp only [h3, h5, lookup, symEndSize] at hls
+            split at hls
+            · simp at hls
+              rcases hls with rfl | rfl <;> rfl
+            · simp at hls
+    · subst hl; rfl
+    · unfold kindEnd at hl
+      split at hl
+      · simp [symEndSize] at hl
+        rcases hl with rfl | rfl | rfl <;> rfl
+      · simp at hl
+
 end Slinky.C09
